@@ -66,6 +66,7 @@ const (
 	regNote
 	regCount
 	regStamp
+	regMarkClosed
 )
 
 var opNames = [...]string{
@@ -76,7 +77,7 @@ var opNames = [...]string{
 	OpSelect: "select", OpSpawn: "go", OpSleep: "sleep", OpPoolGet: "pool.Get", OpPoolPut: "pool.Put",
 	OpCondWait: "cond.Wait", OpCondSignal: "cond.Signal", OpCondBroadcast: "cond.Broadcast", opWake: "wake", OpDone: "done",
 	regFirst: "", regParked: "parked", regTimerNew: "timer.new", regTimerStop: "timer.stop", regTimerReset: "timer.reset",
-	regNow: "now", regDraw: "draw", regNote: "note", regCount: "count", regStamp: "stamp",
+	regNow: "now", regDraw: "draw", regNote: "note", regCount: "count", regStamp: "stamp", regMarkClosed: "mark-closed",
 }
 
 func (k OpKind) String() string {
@@ -1062,6 +1063,11 @@ func (s *Sim) register(t *stask, r *request) resume {
 		return resume{}
 	case regStamp:
 		return resume{n: int64(s.step)}
+	case regMarkClosed:
+		if c := s.chanOf(r.obj, r.chlen, r.chcap); c != nil {
+			c.closed = true
+		}
+		return resume{}
 	case regTimerNew:
 		s.ntimer++
 		tm := &stimer{id: s.ntimer, when: s.now + r.n, ch: r.tch, active: true}
